@@ -269,6 +269,26 @@ def run(ctx):
         # counters = tallies (whole list incl. duplicates, through the real PCFGPasswordParser)
         if all(p in parsed_pws for p in dict.fromkeys(pws)):
             parser = train_util.second_pass(pws, mw)
+            # ... and the whole PCFG half of the trainer as one function of the list (Model/Trainer.lean: pass 1 + pass 2): every
+            # counter of the real parser after the real two passes against the model, insertion order included
+            if i % 3 == 0 and all(p for p in pws):
+                def _t(c_):
+                    return '[' + ','.join(f"{cd.cps(k_)}={v_}" for k_, v_ in c_.items()) + ']'
+
+                def _l(d_):
+                    return ' '.join(f"{n_}:{_t(c_)}" for n_, c_ in d_.items())
+
+                def _s(c_):
+                    return '[' + ','.join(f"{k_}={v_}" for k_, v_ in c_.items()) + ']'
+                ops.append('tr.train ' + ' '.join(cd.cps(p) for p in pws))
+                exp.append(' | '.join([f"kb {_l(parser.count_keyboard)}", f"emails {_t(parser.count_emails)}", f"providers {_t(parser.count_email_providers)}",
+                                       f"urls {_t(parser.count_website_urls)}", f"hosts {_t(parser.count_website_hosts)}",
+                                       'prefixes [' + ','.join(f"{cd.cps(k_) if k_ is not None else 'None'}={v_}" for k_, v_ in parser.count_website_prefixes.items()) + ']', f"years {_t(parser.count_years)}",
+                                       f"ctx {_t(parser.count_context_sensitive)}", f"alpha {_l(parser.count_alpha)}", f"masks {_l(parser.count_alpha_masks)}",
+                                       f"digits {_l(parser.count_digits)}", f"other {_l(parser.count_other)}", f"prince {_s(parser.count_prince)}",
+                                       f"base {_s(parser.count_base_structures)}", f"raw {_s(parser.count_raw_base_structures)}"]))
+                meta.append('whole list')
+                dist['whole_trainer_lists'] = dist.get('whole_trainer_lists', 0) + 1
             seq_secs, seq_infos = [], []
             lookup = {p: (s, inf) for p, s, inf in zip(parsed_pws, all_secs, infos)}
             for p in pws:
